@@ -250,7 +250,7 @@ int main(void) {
   char *line; static char *tok[MAXT];
   { /* a spinning encoder must end the run by itself, whatever the load of the machine: CPU-time limit
        (the heaviest legitimate script needs a few seconds of CPU under ASan) -> SIGXCPU */
-    struct rlimit rl; rl.rlim_cur = 90; rl.rlim_max = 100; setrlimit(RLIMIT_CPU, &rl); }
+    struct rlimit rl; rl.rlim_cur = 40; rl.rlim_max = 45; setrlimit(RLIMIT_CPU, &rl); }
   rfbVerifPreEncodeHook = hook;
   while ((line = vh_readline())) {
     int n = vh_split(line, tok, MAXT);
